@@ -194,6 +194,26 @@ Theorem C18_model_ok :
 Proof. exact vmodel_ok. Qed.
 Print Assumptions C18_model_ok.
 
+(** histories: one vectorised callable called any number of times; every call is per-row application of ITS OWN inputs *)
+Theorem C18_history_ok_sound : forall h, ok_history h = true -> forall c, In (CVec c) h -> vec_statement c.
+Proof. exact history_ok_sound. Qed.
+Print Assumptions C18_history_ok_sound.
+
+Theorem C18_history_model_ok : forall constants df calls, ok_history (model_history constants df calls) = true.
+Proof. exact history_model_ok. Qed.
+Print Assumptions C18_history_model_ok.
+
+(** scalar at an unmasked position (auto-detected constant in that call), then a batch array at the same position: the second call
+    is row-wise again, the mask [1] still holds in both *)
+Example C18_example_history_scalar_then_array :
+  map (fun c => match c with CVec v => v_impl v | CExt _ => None end)
+      (model_history (Some [1]) false
+         [ {| h_inputs := [vint 5; VArr [vint 1; vint 2]]; h_batch_size := None; h_kw := []; h_meta := None |};
+           {| h_inputs := [VArr [vint 7; vint 8]; VArr [vint 1; vint 2]]; h_batch_size := None; h_kw := []; h_meta := None |} ])
+  = [ Some [mkcall [vint 5; VArr [vint 1; vint 2]] [] None];
+      Some [mkcall [vint 7; VArr [vint 1; vint 2]] [] None; mkcall [vint 8; VArr [vint 1; vint 2]] [] None] ].
+Proof. vm_compute. reflexivity. Qed.
+
 Theorem C18_row_ok_sound :
   forall t args kw rs idx cmd seed p,
     row_ok t args kw rs idx (OCmd cmd seed p) = true ->
